@@ -20,7 +20,8 @@ class Recorder(np.random.Generator):
         r = super().choice(a, size=size, replace=replace, p=p, axis=axis, shuffle=shuffle)
         opts = list(range(int(a))) if isinstance(a, (int, np.integer)) else [int(x) for x in list(a)]
         probs = None if p is None else [float(x) for x in np.asarray(p).tolist()]
-        self.log.append(("choice", opts, probs, int(r)))
+        # a call with `size=` draws a block of results at once: logged with the list of results
+        self.log.append(("choice", opts, probs, int(r) if size is None else [int(x) for x in np.asarray(r).ravel().tolist()]))
         return r
 
 
